@@ -304,6 +304,8 @@ func naturalLoops(fn *ssa.Function) []*natLoop {
 var sourceReaders = map[string]bool{
 	"(*bufio.Reader).ReadBytes":                    true,
 	"(*bufio.Reader).ReadString":                   true,
+	"(*bufio.Reader).ReadSlice":                    true,
+	"(*bufio.Reader).ReadLine":                     true,
 	"(*bufio.Reader).Peek":                         true,
 	"(*bufio.Scanner).Scan":                        true,
 	"io.ReadFull":                                  true,
@@ -419,20 +421,16 @@ func checkLoops(p *Program, r *Result) {
 					if !isReader {
 						// closures of this function that read (armor getLine)
 						if callee := staticCallee(&c.Call); callee != nil && callee.Parent() == fn {
-							for _, cc := range callsIn(callee) {
-								if sourceReaders[p.TB(callee).resolvedCalleeName(cc.Common())] {
-									isReader = true
-								}
+							if p.readsSource(callee, 0) {
+								isReader = true
 							}
 						}
 						if name == "dynamic" {
 							if t := tb.Term(c.Call.Value); t.Op == "Closure" {
 								for _, a := range AnonFuncs(fn) {
 									if a.String() == t.S {
-										for _, cc := range callsIn(a) {
-											if sourceReaders[p.TB(a).resolvedCalleeName(cc.Common())] {
-												isReader = true
-											}
+										if p.readsSource(a, 0) {
+											isReader = true
 										}
 									}
 								}
@@ -454,7 +452,7 @@ func checkLoops(p *Program, r *Result) {
 							}
 							fe := tb.FactsOnEdge(blk, k)
 							last := fe[len(fe)-1]
-							if last.Kind == "cmp" && last.Op == "!=" && last.Y.Op == "Nil" && (last.X.V == ssa.Value(c) || (last.X.Op == "Ext" && last.X.Args[0].V == ssa.Value(c))) {
+							if last.Kind == "cmp" && last.Op == "!=" && last.Y.Op == "Nil" && (last.X.V == ssa.Value(c) || (last.X.Op == "Ext" && last.X.Args[0].V == ssa.Value(c)) || mergesErrorOf(last.X.V, c, 0)) {
 								vis := p.Reach([]Loc{blockStart(blk.Succs[k])}, nil)
 								if !vis[l.Header.Instrs[0]] {
 									consumes = true
@@ -787,6 +785,45 @@ func writerSide(fn *ssa.Function) bool {
 func isLibPkg(path string) bool {
 	for _, l := range libPkgs {
 		if l == path {
+			return true
+		}
+	}
+	return false
+}
+
+// readsSource: the function takes input from the source itself or through module functions it
+// calls (a getLine closure around a readLine method).
+func (p *Program) readsSource(fn *ssa.Function, depth int) bool {
+	if fn == nil || fn.Blocks == nil || depth > 3 {
+		return false
+	}
+	tb := p.TB(fn)
+	for _, cc := range callsIn(fn) {
+		if sourceReaders[tb.resolvedCalleeName(cc.Common())] {
+			return true
+		}
+		if callee := cc.Common().StaticCallee(); callee != nil && callee != fn {
+			if callee.Pkg != nil && fn.Pkg != nil && callee.Pkg == fn.Pkg && p.readsSource(callee, depth+1) {
+				return true
+			}
+		}
+	}
+	return false
+}
+
+// mergesErrorOf: v is a merge one of whose incoming values (through further merges) is the error
+// result of call c — the shape a spliced line-reading helper leaves (`if err != nil` on the
+// merged error of its exits).
+func mergesErrorOf(v ssa.Value, c *ssa.Call, depth int) bool {
+	ph, ok := v.(*ssa.Phi)
+	if !ok || depth > 3 {
+		return false
+	}
+	for _, e := range ph.Edges {
+		if ex, isEx := e.(*ssa.Extract); isEx && ex.Tuple == ssa.Value(c) && isErrorType(ex.Type()) {
+			return true
+		}
+		if mergesErrorOf(e, c, depth+1) {
 			return true
 		}
 	}
